@@ -217,7 +217,7 @@ M("sequool-budget-h-plus-1", "PyXAB/algos/SequOOL.py", "                        
   "                            self.budget = math.floor(self.h_max / (self.curr_depth + 1))\n                        self.curr_node = max_node", ["C12"])
 M("sequool-hmax-ceil", "PyXAB/algos/SequOOL.py", "self.h_max = math.floor(n / self.harmonic_series_sum(n))", "self.h_max = math.ceil(n / self.harmonic_series_sum(n))", ["C12"])
 M("sequool-open-min", "PyXAB/algos/SequOOL.py", "                        if node.get_reward() >= max_value:",
-  "                        if node.get_reward() >= max_value or (self.curr_depth == 3 and num == 1):", ["C12"])
+  "                        if node.get_reward() >= max_value or (self.curr_depth == 3 and num == 2):", ["C12"])
 M("sequool-harmonic-off", "PyXAB/algos/SequOOL.py", "        for i in range(1, n + 1):\n            res += 1 / i", "        for i in range(1, n):\n            res += 1 / i", ["C12"])
 M("sequool-skip-last-child", "PyXAB/algos/SequOOL.py", "                    if self.loc == len(max_node.get_children()) - 1:\n                        max_node.open()",
   "                    if self.loc == len(max_node.get_children()) - 1 or (self.curr_depth == 4 and self.loc == 1):\n                        max_node.open()", ["C12"])
